@@ -12,24 +12,32 @@ PROPS_FILE = "theories/Props/C12.v"
 EXTRACT = ("theories/Extract/XC12.v", "c12", ["entry_agree_in", "entry_agree_out"])
 PYX = {"_filter.pyx": ["masked_convolution"]}
 CASE_TIMEOUT = 60
-RULE = ("every listed function x every optional-parameter variant it offers x image shapes (1x1 .. 14x14, skewed to tiny) x "
-        "mask classes (random 0.5/0.8/0.95, thin lines, border-touching frame, single-pixel holes, all-False, all-True, "
-        "blob) x image classes (dyadic with ties, random float, constant, int 0..255 for median/convex hull; boolean for the "
-        "binary family); each case = one base run + runs with the masked-out pixels replaced by {0, 1, +1e3, -1e3, noise} "
-        "(binary: False/True/noise); non-trivial = the mask has both in and out pixels, some replacement really changes a "
+RULE = ("every listed function x every optional-parameter variant it offers x image shapes (1x1 .. 14x14 skewed to tiny, plus "
+        "strips 70-600 x 1-5) x mask classes (random, thin lines, frame, single-pixel holes, masked-out runs ON the border, "
+        "one-pixel spokes reaching the border, all-False, all-True, blob) x image dtype (float64/32, int64/32/16, uint8/16 "
+        "incl. extremes, bool) x layout of image and of mask (C, Fortran, strided view, read-only) x mask dtype "
+        "(bool/uint8/int64 where the function converts it); each case = base run + runs with the masked-out pixels := "
+        "{0, 1, +big, -big, noise, +inf, NaN} (binary: False/True/noise) + the base call repeated at the end; non-trivial = the mask has both in and out pixels, some replacement really changes a "
         "masked-out pixel and the base output is not constant inside the mask; distinct by hash of the case")
 TRUSTED = [
-    "translator tools/gen_maskflow_c12.py (Python ast -> mask-dataflow term, fail-closed) and the hand-written terms of "
-    "tools/maskflow_hand_c12.py pinned to normalised-AST hashes (PINS in harness/props/c12.py)",
+    "translator tools/gen_maskflow_c12.py (symbolic evaluation of the Python AST -> mask-dataflow term, fail-closed; 36 of "
+    "the 40 functions) and the 4 hand-written terms of tools/maskflow_hand_c12.py (openlines, circular_hough, "
+    "regional_maximum, convex_hull_transform) pinned to normalised-AST hashes (tools/maskflow_pins_c12.json)",
     "library-symbol locality table of gen_maskflow_c12.py (the interface the theorems quantify over): POINTWISE NumPy "
     "ufuncs/astype/copy; convolve with a literal kxk kernel local with radius k//2 (reflect border reads stay within "
-    "that radius); binary_erosion(m, 3x3, border_value=0) = Erode 1; GLOBAL = pure functions of their array arguments "
-    "(table_lookup, scind.grey_erosion/dilation, gaussian_filter, label, distance_transform_edt, rank_order, lstsq, "
-    "index_lookup, skeletonize_loop, a user-supplied smoothing function); NumPy identities x[m] = gather(where(m,x,0),m), "
-    "(x with x[s]:=y)[s] = y, x[~m]=c / x[m]=y[m] as where()",
+    "that radius); binary_erosion(m, generate_binary_structure(2,2), border_value=0) = Erode 1; GLOBAL = pure functions "
+    "of their array arguments (table_lookup, scind.grey_erosion/dilation, gaussian_filter, label, "
+    "distance_transform_edt, rank_order, lstsq, index_lookup, helper functions of the three modules, a user-supplied "
+    "smoothing function); in-place kernels skeletonize_loop / _filter.median_filter write only their declared argument; "
+    "extract_from_image_lookup(img, i, j) = img at the indexed pixels else 0; a loop is a pure function of the entry "
+    "values of the variables it reads",
+    "NumPy identities: x[m] = gather(where(m,x,0), m) for boolean m; (x with x[s]:=y)[s] = y; x[~m]=c / x[m]=y[m] as "
+    "where(); x[s1][m[s2]] with literal slices enumerates x at p + start(s1) - start(s2) over the true pixels p of m in "
+    "m's order whenever the code combines it elementwise with a vector gathered by m (NumPy raises otherwise); dtype "
+    "conversions of a mask keep its truthiness",
     "modelled, not verified: arrays as total functions on Z*Z; determinism of NumPy/SciPy (two runs on equal data give "
-    "equal bits); openlines' angle loop written out for three angles; regional_maximum's term reads neighbours within "
-    "radius 1 (default 3x3 structure; larger structures are covered by the two-run oracle only)",
+    "equal bits); openlines' angle loop written out for three angles; regional_maximum's term covers full "
+    "(2r+1)x(2r+1) structures of every r (sparse structures are covered by the two-run oracle only)",
 ]
 ASSUMPTIONS = ["image and mask have the same 2-d shape; mask is boolean; the smoothing function handed to "
                "smooth_with_function_and_mask is pure"]
@@ -70,6 +78,7 @@ def build_terms(sources):
     import maskflow_hand_c12 as Hd
     M = G.Module(sources)
     terms, rejected, extra, errors = {}, {}, {}, []
+    param = {}
 
     def attempt(name, thunk, store):
         try:
@@ -95,15 +104,20 @@ def build_terms(sources):
         attempt(name, lambda builder=builder: builder(M), rejected)
     for name, (fn, builder) in Hd.EXTRA.items():
         attempt(name, lambda fn=fn, builder=builder: (pins_ok(fn), builder(M))[1], extra)
+    for name, (fn, builder) in Hd.PARAM.items():
+        attempt(name, lambda fn=fn, builder=builder: (pins_ok(fn), builder(M))[1], param)
     for n in LISTED:
         if n not in terms:
             terms[n] = _untranslatable()
             errors.append("%s: no term" % n)
+    extra = dict(extra)
+    extra["__param__"] = param
     return terms, rejected, extra, errors
 
 
 def emit(terms, rejected, extra=None):
-    extra = extra or {}
+    extra = dict(extra or {})
+    param = extra.pop("__param__", {})
     import gen_maskflow_c12 as G
     em = G.Emitter()
     out = ["(* GENERATED on every run by harness/props/c12.py (tools/gen_maskflow_c12.py) from the STAGED source of",
@@ -134,6 +148,12 @@ def emit(terms, rejected, extra=None):
     out.extend(em.defs)
     out.append("")
     out.extend(body)
+    import maskflow_hand_c12 as Hd
+    for name, t in param.items():
+        out.append("(* %s: the term of %s with a symbolic structure radius r *)" % (name, Hd.PARAM[name][0]))
+        out.append("Definition prog_%s (r : nat) : expr :=\n  %s." % (name, em.coq_param(t, Hd.RSYM)))
+        out.append("Lemma %s_ok : forall r, accepts (prog_%s r) = true.\nProof. intros r. unfold accepts, prog_%s. cbn. "
+                   "rewrite ?PeanoNat.Nat.leb_refl. cbn. reflexivity. Qed.\n" % (name, name, name))
     out.append("Definition listed_progs : list expr :=\n  [%s]." % "; ".join("prog_" + n for n in LISTED))
     out.append("Definition binary_progs : list expr :=\n  [%s]." % "; ".join("prog_" + n for n in BINARY))
     out.append("Lemma listed_accepted : forallb accepts listed_progs = true.\nProof. vm_compute. reflexivity. Qed.")
@@ -652,7 +672,7 @@ MANIFEST = {
         "EVERY interpretation of the library symbols that respects the declared locality: an accepted program is "
         "non-interfering inside the mask, a program ending in `result[~mask] = image[~mask]` returns its input outside. "
         "On every run a fail-closed translator turns the staged source of the 40 listed functions into such programs "
-        "(27 by symbolic evaluation of the Python AST, 13 hand-written and pinned to the function's AST hash) and the "
+        "(36 by symbolic evaluation of the Python AST, 4 hand-written and pinned to the function's normalised-AST hash) and the "
         "kernel re-checks that every one is accepted (and that the 15 binary operations restore). Dynamically every "
         "function and optional-parameter variant is run on (img, mask) and on images differing outside the mask; the "
         "outputs are compared bit for bit inside the mask (binary family: also outside against the input) through the "
